@@ -49,4 +49,10 @@ func init() {
 		Explanation: "R-STALE: interprocedural must-write / may-read-before-write analysis on SSA over every field of the pooled Runner and of the Match it owns, starting at (*Runner).scan with all non-persistent fields stale; R-RESTORE, R-DETACH, R-BUFLEN, R-CACHEKEY: pairing / ordering checks on the pool return path, the detach of handed-out matches, pooled buffer re-slicing and the replacement cache key. " +
 			"Necessary for history independence (a field read before written leaks the previous call). Equality with a fresh Regexp as such is NOT decided.",
 	})
+	register(&Prop{
+		ID:    "C11",
+		Rules: []func(*core.Ctx){RFx, RLock, RClockEnd, ROwn},
+		Explanation: "R-FX effect confinement: whole-program shared-derived taint on SSA over everything reachable from the match-time API; every write whose target derives from a shared Regexp / Code / global must be one of the lock- or atomic-protected structures. R-LOCK lockset dataflow for those structures. R-OWN ownership of pooled runners and buffers. " +
+			"Decides data-race freedom of the enumerated shared state (a necessary condition of C11). That concurrent results equal sequential ones is NOT decided beyond race freedom plus C12's independence.",
+	})
 }
